@@ -38,10 +38,17 @@ static int zsize[64];
 static void path_of(int id, char *out) { sprintf(out, "%s/M%d.cgns", dir, id); }
 static int users(void) { int i, n = 0; for (i = 0; i < 64; i++) n += isopen[i]; return n; }
 
+static int last_ier = 0;
 static void tail(int mll, int fn)
 {
     printf(" | fds %d h5 %ld user %d", fd_count() - fd0, h5_count(), users());
     if (mll) printf(" | mll %d %d %d %d %d", n_open, n_cgns_files, cgns_file_size, file_number_offset, fn);
+    if (mll && last_ier) {            /* the library's message, for the reader of a replay file only (never compared) */
+        char msg[120]; const char *e = cg_get_error(); size_t i;
+        for (i = 0; e && e[i] && i < sizeof msg - 1; i++) msg[i] = (e[i] == '|' || e[i] == '\n') ? ' ' : e[i];
+        msg[i] = 0;
+        printf(" | err %s", msg);
+    }
     printf("\n");
     fflush(stdout);
 }
@@ -107,12 +114,12 @@ int main(int argc, char **argv)
             path_of(id, p);
             ier = cg_open(p, m == 'w' ? CG_MODE_WRITE : m == 'm' ? CG_MODE_MODIFY : m == 'r' ? CG_MODE_READ : 77, &fn);
             if (!ier && h >= 0 && h < 64) { fns[h] = fn; isopen[h] = 1; }
-            printf("open %d", ier); tail(1, ier ? 0 : fn);
+            last_ier = ier; printf("open %d", ier); tail(1, ier ? 0 : fn);
         }
         else if (sscanf(line, "close %d", &h) == 1) {
             ier = cg_close(h >= 0 && h < 64 ? fns[h] : h);
             if (!ier && h >= 0 && h < 64) isopen[h] = 0;
-            printf("close %d", ier); tail(1, 0);
+            last_ier = ier; printf("close %d", ier); tail(1, 0);
         }
         else if (sscanf(line, "base %d %1023s", &h, a) == 2) { ier = cg_base_write(fns[h], a, 3, 3, &B); printf("base %d", ier); tail(0, 0); }
         else if (sscanf(line, "zone %d %d %1023s %d", &h, &B, a, &n) == 4) {
